@@ -19,6 +19,7 @@ type ('sh, 'ts, 'l, 'op, 'ret) comp = {
   final_prog : (string * string) list -> int list -> string list list -> 'op list;
   final_digest : 'ret list -> string;
   pc_of : 'l -> Obj.t;          (* the program-counter constructor inside a local state *)
+  sh_digest : 'sh -> string;    (* observable part of the final shared state, appended to the digest *)
 }
 
 (* coverage of model program counters: kind -> set of constructor keys *)
@@ -131,7 +132,8 @@ let process_runs (type sh ts l op ret) (c : (sh, ts, l, op, ret) comp) (s : scn)
            | Some f, None when not fine ->
              let (_, evs) = run_solo c cfg (nthr + 1) in
              let rets = List.filter_map (function ERet (_, _, r) -> Some r | _ -> None) evs in
-             let d = c.final_digest rets in
+             let (cfgf, _) = run_solo c cfg (nthr + 1) in
+             let d = c.final_digest rets ^ c.sh_digest cfgf.c_sh in
              if d <> f then report "final" (Printf.sprintf "|implF %s |modelF %s" f d)
            | _ -> ()));
     (match !vline with
@@ -211,13 +213,13 @@ let queue_digest iter rets =
 let jdk_comp = {
   mach = jdk; sh0 = (fun _ _ -> qinit); ts0 = qiter0; parse_op = parse_qop; show_ret = show_qret;
   prefill = (fun _ pre -> List.map (fun v -> Offer (nat_of_int v)) pre);
-  final_prog = queue_final true; final_digest = queue_digest true; pc_of = (fun l -> Obj.repr l.l_pc);
+  final_prog = queue_final true; final_digest = queue_digest true; pc_of = (fun l -> Obj.repr l.l_pc); sh_digest = (fun _ -> "");
 }
 
 let mutex_comp = {
   mach = mutexq; sh0 = (fun _ _ -> minit); ts0 = (); parse_op = parse_qop; show_ret = show_qret;
   prefill = (fun _ pre -> List.map (fun v -> Offer (nat_of_int v)) pre);
-  final_prog = queue_final false; final_digest = queue_digest false; pc_of = Obj.repr;
+  final_prog = queue_final false; final_digest = queue_digest false; pc_of = Obj.repr; sh_digest = (fun _ -> "");
 }
 
 (* adders *)
@@ -235,7 +237,38 @@ let adder_digest rets = String.concat "," (List.map show_aret rets)
 let opt_int opts k d = match List.assoc_opt k opts with Some v -> int_of_string v | None -> d
 let adder_comp mach sh0 = {
   mach; sh0; ts0 = (); parse_op = parse_aop; show_ret = show_aret;
-  prefill = (fun _ _ -> []); final_prog = adder_final; final_digest = adder_digest; pc_of = Obj.repr;
+  prefill = (fun _ _ -> []); final_prog = adder_final; final_digest = adder_digest; pc_of = Obj.repr; sh_digest = (fun _ -> "");
+}
+
+(* breaker *)
+let opt_z opts k d = match List.assoc_opt k opts with Some v -> Zconv.z_of_string v | None -> zint d
+let breaker_cfg opts = {
+  thr = of_bits (opt_z opts "thr" 0); minreq = opt_z opts "minreq" 1; trial = opt_z opts "trial" 3;
+  openw = opt_z opts "openw" 10; window = opt_z opts "window" 20; interval = opt_z opts "interval" 5 }
+let show_bret = function
+  | BU -> "u" | BB b -> if b then "b1" else "b0"
+  | BCount None -> "n"
+  | BCount (Some (s, f)) -> Printf.sprintf "e%s:%s" (Zconv.string_of_z s) (Zconv.string_of_z f)
+let parse_bop name _ = match name with
+  | "c" -> CanRequest | "s" -> OnSuccess | "f" -> OnFailure
+  | "ws" -> WSuccess | "wf" -> WFailure | "wc" -> WCount
+  | _ -> failwith ("unknown breaker op " ^ name)
+let show_log log =
+  "L" ^ String.concat "," (List.map (fun (i, e) ->
+      let i = int_of_nat i in
+      match e with
+      | LStateChanged KClosed -> Printf.sprintf "%d:S0" i
+      | LStateChanged KOpen -> Printf.sprintf "%d:S1" i
+      | LStateChanged KHalfOpen -> Printf.sprintf "%d:S2" i
+      | LCountUpdated (s, f) -> Printf.sprintf "%d:C%s:%s" i (Zconv.string_of_z s) (Zconv.string_of_z f)
+      | LRejected -> Printf.sprintf "%d:R" i) log)
+let breaker_comp opts window_only = {
+  mach = breaker (breaker_cfg opts) (nat_of_int (opt_int opts "listeners" 1));
+  sh0 = (fun o pre -> let ticks = List.map zint pre in
+          if window_only then winit ticks else binit (nat_of_int (opt_int o "listeners" 1)) ticks);
+  ts0 = (); parse_op = parse_bop; show_ret = show_bret;
+  prefill = (fun _ _ -> []); final_prog = (fun _ _ _ -> []); final_digest = (fun _ -> "");
+  pc_of = Obj.repr; sh_digest = (fun s -> show_log s.b_log);
 }
 
 (* ---------------------------------------------------------------- main loop *)
@@ -271,6 +304,8 @@ let () =
              | "atomic" -> process_runs (adder_comp atomic_adder (fun _ _ -> Z0)) s ic
              | "atomicf" -> process_runs (adder_comp atomic_f64_adder (fun _ _ -> Z0)) s ic
              | "mutexadd" -> process_runs (adder_comp mutex_adder (fun _ _ -> xinit)) s ic
+             | "breaker" -> process_runs (breaker_comp opts false) s ic
+             | "window" -> process_runs (breaker_comp opts true) s ic
              | k -> failwith ("unknown kind " ^ k))
           | None -> ())
        | "ERROR" :: _ -> print_endline line
